@@ -525,6 +525,7 @@ type genOpts struct {
 	byz         []int    // creators with lying clocks
 	txKinds     bool     // exotic transaction payloads
 	burst       bool     // bursts of events without other-parent
+	shrink      bool     // a leave that lowers the supermajority, with a silent validator
 	sleeper     bool     // the last creator sleeps from steps/6 on and only wakes to create a witness of a decided round that still waits for an earlier one
 	topo        int      // gossip graph: 0 complete, 1 path, 2 two camps joined by one bridge (persistent split votes, slow elections)
 	ring        bool     // (with late) efficient ring gossip among the awake creators
@@ -554,10 +555,23 @@ func randomOpts(rng *rand.Rand, thorough bool, dynamic bool) genOpts {
 		o.extra = 1 + rng.Intn(2)
 		o.leave = rng.Intn(2) == 0
 		o.steps += 150
+		if rng.Intn(3) == 0 {
+			// shrink family: a leave that lowers the supermajority (5 -> 4, 6 -> 5, 7 -> 6), no joiner,
+			// and (below) a silent validator, so that rounds are decided with exactly the new
+			// supermajority of famous witnesses
+			o.n0 = 5 + rng.Intn(3)
+			o.extra = 0
+			o.leave = true
+			o.shrink = true
+			o.steps += 100
+		}
 	}
 	o.lag = rng.Intn(3) == 0 && o.n0 >= 4
-	o.silentThird = rng.Intn(4) == 0 && o.n0 >= 4
+	o.silentThird = (rng.Intn(4) == 0 || o.shrink) && o.n0 >= 4
 	o.partition = rng.Intn(4) == 0 && o.n0 >= 4
+	if o.shrink {
+		o.lag, o.partition = false, false
+	}
 	o.staleOp = rng.Intn(2) == 0
 	o.burst = rng.Intn(4) == 0
 	o.late = rng.Intn(2) == 0 && o.n0 >= 4
@@ -645,6 +659,9 @@ func generate(rng *rand.Rand, o genOpts, c *Case, ref *hnode) *dag {
 	if o.silentThird {
 		silentFrom = o.steps/4 + rng.Intn(o.steps/2)
 		k := (o.n0 - 1) / 3
+		if o.shrink {
+			k = 1
+		}
 		for len(silent) < k {
 			silent[rng.Intn(o.n0)] = true
 		}
